@@ -483,6 +483,25 @@ def tolerateOverrun (items : String) (modelEntries implEntries : List String) (r
       | _, rest => acc.reverse ++ rest
     go modelEntries implEntries n []
 
+/-- the same for a hard read error of the USART device while the receiver waits for a frame delimiter (`nb::Error::Other`;
+no property quantifies over device read errors on the USART): the pinned receiver answers "nothing received" -/
+def tolerateReadError (items : String) (modelEntries implEntries : List String) : List String :=
+  match parseByteItems items with
+  | none => implEntries
+  | some its =>
+    if !its.contains .error then implEntries else
+    let n := its.length
+    let leftOf (e : String) : Nat := ((e.splitOn "@").getD 1 "0").toNat?.getD 0
+    let rec go (ms is : List String) (prevLeft : Nat) (acc : List String) : List String :=
+      match ms, is with
+      | m :: mt, i :: it =>
+        let lastConsumed := its.getD (n - leftOf m - 1) .wouldBlock
+        let i' := if m != i && m.startsWith "nothing@" && i == "err@" ++ toString (leftOf m)
+                     && leftOf m < prevLeft && lastConsumed == .error then m else i
+        go mt it (leftOf m) (i' :: acc)
+      | _, rest => acc.reverse ++ rest
+    go modelEntries implEntries n []
+
 def scenRx (link items obs : String) : Verdict :=
   match rxModel link items with
   | none => .bad "parse"
@@ -491,8 +510,9 @@ def scenRx (link items obs : String) : Verdict :=
     else
       let obs' := if link == "can" then
           String.intercalate "," (tolerateOverrun items (a.splitOn ",") (obs.splitOn ",") id (fun _ r => r))
+        else if link == "usart" then String.intercalate "," (tolerateReadError items (a.splitOn ",") (obs.splitOn ","))
         else obs
-      if a == obs' then .note "a CAN overrun report is answered with an error instead of 'nothing received' (outside every property's quantifier)"
+      if a == obs' then .note "a device fault outside every property's quantifier (CAN overrun report, USART read error while idle) is answered with an error instead of 'nothing received'"
       else match rxOracle link items obs' a with
       | some clause => .prop "C06" clause a
       | none => .corr a
@@ -526,8 +546,9 @@ def scenRxh (link items obs : String) : Verdict :=
         | _ => (e, 0, 0, 0)
       let a := String.intercalate "," (sts.map (·.1))
       -- an overrun report answered with an error instead of "nothing received" is read as the model's answer (see `tolerateOverrun`)
-      let parsed := if link == "can" then
-          let fixed := tolerateOverrun items (sts.map (·.1)) (parsed.map (·.1)) id (fun _ r => r)
+      let parsed := if link == "can" || link == "usart" then
+          let fixed := if link == "can" then tolerateOverrun items (sts.map (·.1)) (parsed.map (·.1)) id (fun _ r => r)
+            else tolerateReadError items (sts.map (·.1)) (parsed.map (·.1))
           (parsed.zip fixed).map fun ((_, l, pk, pl), r) => (r, l, pk, pl)
         else parsed
       if String.intercalate "," (parsed.map (·.1)) != a then
@@ -899,7 +920,11 @@ the handlers of one packet are invoked. A block is a `c<token>/…` entry and th
 causes: one transmission per packet it sends to another device, and per packet it sends to the device itself one
 re-entrant `n<token>/…` entry per registered handler (plus the transmission when the own address is the broadcast
 address) -/
-def canonSeg (blockLen : Nat → Nat) (seg : List String) : List String :=
+def canonSeg (blockLen : Nat → Nat) (seg : List String) (exchange : Bool := false) : List String :=
+  -- C18 is silent about the packets an exchange reads and does not return: an implementation may hand them to the
+  -- handlers as a tick would. In an exchange the log after the wait mark is therefore not compared
+  -- (the wait marks themselves are all kept: the callback must run exactly once)
+  let seg := if exchange then (seg.takeWhile (· != "w")) ++ seg.filter (· == "w") else seg
   -- which transmission met which link answer depends on the invocation order: compare the transmissions without
   -- their answers, and the sequence of answers separately. No property orders the handlers of one packet among each
   -- other, the sends of one callback among each other, or a local delivery against a transmission that must both
@@ -952,9 +977,12 @@ def judgeProto (addr ops obs : String) (results log : List String) (counts : Lis
       match sendsTab.find? (·.1 == t) with
       | some (_, loops, others) => loops * (counts.getD i 0 + (if own == 0xffff then 1 else 0)) + others
       | none => 0
+    -- `<result>@<rx items left>` without the `#<log length>` (which only delimits the segments)
+    let resOf (x : String) : String := (x.splitOn "#").headD ""
+    let isX (i : Nat) : Bool := (opl.getD i "").startsWith "x"
     let firstBad := (List.range opl.length).find? fun i =>
-      ires.getD i "?" != results.getD i "?" ||
-        canonSeg (blockLen i) (seg ilog ires i) != canonSeg (blockLen i) (seg log results i)
+      resOf (ires.getD i "?") != resOf (results.getD i "?") ||
+        canonSeg (blockLen i) (seg ilog ires i) (isX i) != canonSeg (blockLen i) (seg log results i) (isX i)
     match firstBad with
     | some i =>
       let pid := opProp (opl.getD i "")
